@@ -75,6 +75,11 @@ def parse_template(text):
                     item["name"] = w[5:]
                 if w.startswith("fn="):
                     item["fn"] = w[3:]
+                if w.startswith("back="):
+                    # the anchor lies inside the item head (pretty-printed
+                    # expansions break lines): the item starts at the nearest
+                    # preceding occurrence of this keyword
+                    item["back"] = w[5:]
             i += 1
             cur_sub = None
             while i < len(lines):
@@ -423,7 +428,7 @@ def undo_regions(text, regions):
     return REGION.sub(lambda m: regions[int(m.group(1))][0], text)
 
 
-def build_unit(template_path, repo, out_path):
+def build_unit(template_path, repo, out_path, extra_sources=None):
     """Generate the Verus unit. Returns a dict describing the extraction."""
     tpl = open(template_path).read()
     # //@include <path relative to the template's directory>
@@ -445,10 +450,20 @@ def build_unit(template_path, repo, out_path):
             continue
         it = seg
         path = os.path.join(repo, it["file"])
+        if it["file"].startswith("@"):
+            # compiler-generated source (rustc -Zunpretty=expanded), produced on every run
+            path = (extra_sources or {}).get(it["file"], "")
         if not os.path.exists(path):
             raise ExtractError("missing source file " + it["file"])
         src = open(path).read()
         start = find_unique(src, it["anchor"], it["file"])
+        if it.get("back"):
+            m = None
+            for m in re.finditer(r"\b%s\b" % re.escape(it["back"]), src[:start]):
+                pass
+            if m is None:
+                raise ExtractError("no `%s` before anchor %r" % (it["back"], it["anchor"]))
+            start = m.start()
         item = Item(src, start, f'{it["file"]}:{it["anchor"]}')
         item.strip_attrs()
         for op in it["ops"]:
